@@ -502,7 +502,7 @@ theorem body3_dead (k k1 k2 : ThetaSt OSt) (i : Nat) (hf : k.fault = none) (hb :
       (fun s => s.fail .fuel) fuel k1 = k2)
     (h2f : k2.fault = none) (h2b : k2.obs.bad = false) (hi : k2.i = (i : Int))
     (hs3 : k2.obs.size 3 = (P.n : Int)) (hs4 : k2.obs.size 4 = (P.n : Int))
-    (ha34 : k2.obs.arr 4 (k2.len_list - 1) = k2.obs.arr 3 (k2.len_list - 1))
+    (ha34' : k2.obs.inb 3 (k2.len_list - 1) = true → k2.obs.arr 4 (k2.len_list - 1) = k2.obs.arr 3 (k2.len_list - 1))
     (hC : ¬ (k2.obs.inb 3 (k2.len_list - 1) = true ∧ (k2.obs.arr 3 (k2.len_list - 1)).isSome = true))
     (hea : ea = 1 ∨ (ea = 0 ∧ (i : Int) < (P.n : Int) - 3)) :
     Dead (theta_chain_comput_strategy_loop3_body obs P.row oracle fuel P.n ea k) := by
@@ -516,7 +516,8 @@ theorem body3_dead (k k1 k2 : ThetaSt OSt) (i : Nat) (hf : k.fault = none) (hb :
   rw [step_live _ k1 h1f h1b]
   erw [hk2]
   by_cases hin : k2.obs.inb 3 (k2.len_list - 1) = true
-  · have hin' := hin
+  · have ha34 := ha34' hin
+    have hin' := hin
     simp only [OSt.inb, hs3, Bool.and_eq_true, decide_eq_true_eq] at hin'
     obtain ⟨c, hl⟩ : ∃ c : Nat, k2.len_list = (c : Int) + 1 := ⟨(k2.len_list - 1).toNat, by omega⟩
     have hcc : k2.len_list - 1 = (c : Int) := by omega
@@ -551,6 +552,84 @@ theorem body3_dead (k k1 k2 : ThetaSt OSt) (i : Nat) (hf : k.fault = none) (hb :
           ev_loadR3_s, ev_loadR4_s, OSt.inb, hs3, hs4, hv, hw, hc0, hc1, hbadS, h3', h2']
   · have hbadL := ev_loadR3_bad k2.obs (k2.len_list - 1) hin
     simp [Dead, ThetaSt.step, ThetaSt.live, obs_ev, SqiProofs.SkelThetaSim.obs_ok, h2f, h2b, EvKind.loadR, hbadL]
+
+/-- one iteration of the main loop dies when the hand model's iteration faults -/
+theorem iter_dead (hfn : P.n + 1 ≤ fuel) (hfr : P.row.length ≤ fuel) (hea : ea = if P.eightAbove then 1 else 0)
+    (i : Nat) (hi : (i : Int) < P.m) (k : ThetaSt OSt) (m : St) (R : Rel P k m) (hki : k.i = (i : Int))
+    (hll : 0 ≤ m.lenList)
+    (he : (isoStep P i (whileLoop P i (headStep P i m))).err ≠ none) :
+    Dead (theta_chain_comput_strategy_loop3_body obs P.row oracle fuel P.n ea k) := by
+  have hm : P.m = (P.n : Int) - 1 - (P.adj : Int) := rfl
+  by_cases h1e : (headStep P i m).err = none
+  · obtain ⟨L, S, hL, hLn, hS, hhead⟩ := headStep_inv P i m R.me h1e
+    rw [hhead] at he
+    have hk1 := loop4 P oracle fuel ea m.level L fuel 0 0 { k with len_count := 0, j := 0 } R.kf R.kb rfl
+      (by simp only []; rw [R.ll, hL]; simp) rfl rfl R.lvs (by omega) R.lvg (by omega) S (by simpa using hS)
+    have R1 := head_rel P k m R i L S
+    by_cases h2e : (whileLoop P i { m with lenCount := (S : Int), trace := m.trace ++ [.head i (L : Int) (S : Int)] }).err = none
+    · obtain ⟨R2, hk2i⟩ := while_sim P oracle fuel ea i (P.row.length - m.index) fuel _ _ R1 hki (Nat.le_refl _)
+        (by omega) h2e
+      generalize hk2 : whileF _ _ _ _ fuel { k with j := ((0 + L : Nat) : Int), len_count := (S : Int) } = k2 at R2 hk2i
+      generalize hm2 : whileLoop P i { m with lenCount := (S : Int), trace := m.trace ++ [.head i (L : Int) (S : Int)] } = m2
+        at R2 he h2e
+      have hc := (isoStep_err_iff P i m2 R2.me).1 he
+      have heac : ea = 1 ∨ (ea = 0 ∧ (i : Int) < (P.n : Int) - 3) := by
+        rcases adj_cases P with ⟨h1, h2⟩ | ⟨h1, h2⟩
+        · left; rw [hea, h1]; rfl
+        · right; rw [hea, h1]; exact ⟨rfl, by omega⟩
+      refine body3_dead P oracle fuel ea k _ k2 i R.kf R.kb hk1 R.kf R.kb hk2 R2.kf R2.kb hk2i R2.s3 R2.s4 ?_ ?_ heac
+      · intro hin
+        simp only [OSt.inb, R2.s3, Bool.and_eq_true, decide_eq_true_eq] at hin
+        have hcn : k2.len_list - 1 = (((k2.len_list - 1).toNat : Nat) : Int) := by omega
+        rw [hcn, R2.a3, R2.a4]
+      · intro h
+        apply hc
+        obtain ⟨h1, h2⟩ := h
+        simp only [OSt.inb, R2.s3, R2.ll, Bool.and_eq_true, decide_eq_true_eq] at h1
+        have hcn : m2.lenList - 1 = (((m2.lenList - 1).toNat : Nat) : Int) := by omega
+        refine ⟨by simp [idxOK]; omega, ?_⟩
+        rw [R2.ll, hcn, R2.a3] at h2
+        exact h2
+    · have hd := while_dead P oracle fuel ea i (P.row.length - m.index) fuel _ _ R1 hki (Nat.le_refl _) h2e
+      unfold theta_chain_comput_strategy_loop3_body
+      rw [step_live _ k R.kf R.kb]
+      dsimp only
+      rw [step_live _ { k with len_count := 0 } R.kf R.kb]
+      dsimp only
+      rw [step_live _ { k with len_count := 0, j := 0 } R.kf R.kb]
+      erw [hk1]
+      rw [step_live _ { k with j := ((0 + L : Nat) : Int), len_count := (S : Int) } R.kf R.kb]
+      generalize hk2 : whileF _ _ _ _ fuel { k with j := ((0 + L : Nat) : Int), len_count := (S : Int) } = k2 at hd ⊢
+      have hs : ∀ f, ThetaSt.step obs f k2 = k2 := fun f => step_dead f k2 hd
+      simp only [hs]
+      exact hd
+  · have hc := (headStep_err_iff P i m R.me).1 h1e
+    obtain ⟨L, hL⟩ : ∃ L : Nat, m.lenList = (L : Int) := ⟨m.lenList.toNat, by omega⟩
+    have hx : ∃ x, 0 ≤ x ∧ x < 0 + L ∧ (P.n ≤ x ∨ m.level x = none) := by
+      by_cases hLn : L ≤ P.n
+      · have hnone : levelSum m.level L = none := by
+          cases hq : levelSum m.level L with
+          | none => rfl
+          | some S =>
+            exfalso; apply hc
+            have : m.lenList.toNat = L := by omega
+            rw [this, hq]
+            exact ⟨by omega, by omega, rfl⟩
+        obtain ⟨x, hx1, hx2⟩ := levelSum_none m.level L hnone
+        exact ⟨x, by omega, by omega, Or.inr hx2⟩
+      · exact ⟨P.n, by omega, by omega, Or.inl (Nat.le_refl _)⟩
+    have hd := loop4_dead P oracle fuel ea m.level L fuel 0 { k with len_count := 0, j := 0 } R.kf R.kb rfl
+      (by simp only []; rw [R.ll, hL]; simp) R.lvs R.lvg hx
+    unfold theta_chain_comput_strategy_loop3_body
+    rw [step_live _ k R.kf R.kb]
+    dsimp only
+    rw [step_live _ { k with len_count := 0 } R.kf R.kb]
+    dsimp only
+    rw [step_live _ { k with len_count := 0, j := 0 } R.kf R.kb]
+    generalize hk1 : whileF _ _ _ _ fuel { k with len_count := 0, j := 0 } = k1 at hd ⊢
+    have hs : ∀ f, ThetaSt.step obs f k1 = k1 := fun f => step_dead f k1 hd
+    simp only [hs]
+    exact hd
 end Iter
 
 end SqiProofs.SkelThetaConv
